@@ -15,6 +15,7 @@ ASSUMPTIONS = [
     "the 21 import scripts are re-run with the repository's interpreter in a git-initialised scratch copy of the working tree's src/, data/ and scripts/ (outside /repo and /verif, removed afterwards); every processed table and the combined table are deleted from the copy first, so a script that writes nothing is noticed",
     "the 20 table scripts are independent of each other (each reads only raw data) and are run concurrently; import_food_data.py, which merges their outputs, runs last as in scripts/run_all_imports.sh",
     "comparison is byte for byte; a difference is then localised cell by cell",
+    "averaging helper: inputs are handed in as list, tuple or float64 ndarray, each container twice: the result must not change and the container must be left as it was",
     "averaging helper: a percentage is valid iff -100 <= p <= 1e5 (docstring); expected result = sum(w_i p_i over valid)/sum(w_i over valid), sentinel 9.37e36 iff no valid value carries weight",
 ]
 NEEDS_MODEL = False
@@ -218,6 +219,7 @@ def helper(case):
     viol, seen = [], collections.Counter()
     nt = 0
     ex = []
+    forms = collections.Counter()
 
     def bad(mech, msg, **d):
         seen[mech] += 1
@@ -225,8 +227,9 @@ def helper(case):
             viol.append({"mech": mech, "msg": msg, "data": d})
 
     for e in range(case["examples"]):
-        n = rnd.choice([1, 2, 3, 5, 12])
-        ps = [rnd.choice([rnd.uniform(-100, 200), -100.0, -100.0000001, -99.5, 1e5, 1e5 + 1, 9.37e36, -1e9, 0.0, rnd.uniform(-100, -99), rnd.uniform(-150, -100)]) for _ in range(n)]
+        n = rnd.choice([1, 2, 3, 4, 5, 12])
+        ps = [rnd.choice([rnd.uniform(-100, 200), -100.0, -100.0000001, -99.5, 1e5, 1e5 + 1, 9.37e36, 9.97e36, -1e9, 0.0, rnd.uniform(-100, -99), rnd.uniform(-150, -100),
+                          10 ** rnd.uniform(5.0001, 12), rnd.uniform(200, 1e5)]) for _ in range(n)]
         weighted = rnd.random() < 0.6
         if weighted:
             w = [rnd.choice([0.0, rnd.random()]) for _ in range(n)]
@@ -238,12 +241,23 @@ def helper(case):
             w = [1.0 / n] * n
         valid = [(p, x) for p, x in zip(ps, w) if -100 <= p <= 1e5]
         vw = sum(x for _, x in valid)
+        # the caller's vectors in the container types callers use (the import scripts pass lists and pandas/numpy rows);
+        # the same containers are handed in twice: the helper is a function of its arguments and leaves them alone
+        form = rnd.choice(["list", "list", "tuple", "ndarray", "ndarray"])
+        mk = {"list": list, "tuple": tuple, "ndarray": lambda v: np.array(v, dtype=float)}[form]
+        cp, cw = mk(ps), mk(w)
+        forms[form] += 1
         try:
-            got = IU.weighted_average_percentages(list(ps), list(w)) if weighted else IU.average_percentages(list(ps))
+            got = IU.weighted_average_percentages(cp, cw) if weighted else IU.average_percentages(cp)
+            again = IU.weighted_average_percentages(cp, cw) if weighted else IU.average_percentages(cp)
         except AssertionError as err:
             bad("helper_rejects_valid_input", "percentages %s weights %s: AssertionError %s" % (ps, [round(x, 4) for x in w], str(err)[:60]), percentages=ps, weights=w)
             continue
-        data = {"percentages": ps, "weights": w, "result": got}
+        data = {"percentages": ps, "weights": w, "result": got, "container": form}
+        if list(cp) != ps or list(cw) != w:
+            bad("helper_modifies_its_input", "%s input %s became %s (weights %s -> %s)" % (form, ps, list(cp), [round(x, 4) for x in w], [round(float(x), 4) for x in cw]), **data)
+        if again != got:
+            bad("average_changes_when_called_again", "same %s handed in twice: first %r then %r (inputs %s)" % (form, got, again, ps), **data)
         if vw <= 1e-12:
             if got != SENTINEL and not (len(valid) and vw == 0 and got == SENTINEL):
                 if not (valid and vw < 1e-12):
@@ -262,7 +276,7 @@ def helper(case):
             bad("average_differs_from_renormalised_mean", "result %.9f, renormalised mean of the valid values %.9f" % (got, want), **data)
         if e < 2:
             ex.append({"percentages": ps, "weights": [round(x, 4) for x in w], "result": got})
-    return {"viol": viol, "obs": {"kind": "helper", "examples": case["examples"], "nontrivial": nt, "samples": ex, "viol_counts": dict(seen)}}
+    return {"viol": viol, "obs": {"kind": "helper", "examples": case["examples"], "nontrivial": nt, "samples": ex, "containers": dict(forms), "viol_counts": dict(seen)}}
 
 
 def run_case(case, tier):
